@@ -1,10 +1,39 @@
 (* C13 - rcu_list destroys and frees everything it allocated exactly once, for any T.
-   Statements only; every proof is `exact <lemma>`.  [unf] = true selects the pre-repair reclaim
-   steps of DESIGN section 6 (destroy / deallocate of the null zombie_node of registration records). *)
+   Statements only; every proof is `exact <lemma>`.  [init true] selects the pre-repair reclaim steps of
+   DESIGN section 6 (destroy / deallocate of the null zombie_node of registration records), [init false]
+   the repaired source.  The element type is abstract: the ledger of a cell does not depend on it. *)
 From Coq Require Import List Arith ZArith Lia Bool.
 Import ListNotations.
-From GV Require Import Sched Events RcuModel RcuBase RcuProofs.
-Local Open Scope Z_scope.
+From GV Require Import Sched Events RcuModel RcuBase RcuListProofs RcuLogProofs RcuSafetyProofs RcuLedgerProofs RcuProofs.
+
+(* No ledger fault, for every program and every schedule: no construct of a cell that is not freshly
+   allocated, no destroy of a cell that is not constructed (in particular nothing that was never
+   constructed is destroyed), no deallocate of a cell that is not destroyed, no destroy / deallocate of a
+   null pointer.  (The same flag also records use-after-free accesses, see C05.) *)
+Theorem rcu_ledger_ok : forall progs s, R false progs s -> fault (gl s) = false.
+Proof. exact no_fault. Qed.
+
+(* Exactly once, as far as it has happened: in every reachable state each cell ever allocated has been
+   constructed at most once, destroyed at most once and only after construction, deallocated at most
+   once and only after destruction; a deallocated cell was constructed, destroyed and deallocated
+   exactly once. *)
+Theorem rcu_exactly_once_partial : forall progs s k c, R false progs s -> getc (gl s) k = Some c ->
+  fault (gl s) = false /\ (nct c <= 1 /\ ndt c <= nct c /\ nfr c <= ndt c /\
+  (cs c = Freed -> nct c = 1 /\ ndt c = 1 /\ nfr c = 1))%nat.
+Proof. exact ledger_exact. Qed.
+(* Full statement (not yet proved; see props/C13.json "partial"):
+     rcu_exactly_once : R false progs s -> all_fin s -> (forall l, In l (thr s) -> hnd l = None) ->
+       let g' := fst (destroy_list (gl s)) in fault g' = false /\ forall c, In c (heap g') -> cs c = Freed.
+   Missing: the classification "every constructed cell is in the list, on the log, or the node of a log
+   record" and the functional correctness of destroy_list.  The implementation-side monitor rcu.ledger
+   checks exactly this on every run (final line -2 -1 <cells> <not freed> <fault>). *)
+
+(* A release destroys a list node only if the node has a log record made by erase: the node is marked
+   deleted and out of the list.  Hence with nothing erased a release frees only handle records. *)
+Theorem rcu_handles_only : forall unf progs s t l n d, R unf progs s ->
+  nth_error (thr s) t = Some l -> at_ l = U_dd n (Some d) ->
+  isnode (gl s) d = true /\ dl (gl s) d = true /\ ~ In d (lst (gl s)) /\ isrec (gl s) n = true.
+Proof. exact destroyed_node_was_erased. Qed.
 
 (* the finding, inside the development: with the pre-repair reclaim step there are a program and a
    schedule (one thread: two handle sessions in a row) that reach a fault *)
@@ -15,5 +44,5 @@ Proof. exists unfixed_progs, unfixed_sched. exact unfixed_refuted. Qed.
    session's record, ~rcu_list frees the other one; 2 cells allocated, 0 left *)
 Theorem rcu_fixed_same_run_ok :
   fault (gl (run glob loc tstep (init false unfixed_progs) unfixed_sched)) = false /\
-  final (run glob loc tstep (init false unfixed_progs) unfixed_sched) = [[-2; -3]; [-2; 52; 1]; [-2; 53; 1]; [-2; -1; 2; 0; 0]].
+  final (run glob loc tstep (init false unfixed_progs) unfixed_sched) = [[-2; -3]; [-2; 52; 1]; [-2; 53; 1]; [-2; -1; 2; 0; 0]]%Z.
 Proof. exact fixed_same_run_ok. Qed.
